@@ -10,7 +10,7 @@
      [cfi_family] below is the tiny evaluator of exactly this family against CfiStackWalker
      (breakpad-symbols walker.rs eval_cfi_expr: u64 wrapping arithmetic, `^` = read of one
      C::Register, set_cfa/set_ra/set_caller_register = C::Register::try_from). *)
-From RM Require Import C08.Model C05.Model.
+From RM Require Import C08.Model C05.Model C05.ModelTail.
 From RM Require C06.Model C07.Model C07.Text C09.Grammar.
 Open Scope Z_scope.
 
@@ -242,6 +242,10 @@ Definition cfi_any (callee : frame) (gc : option frame) (fwd : list Z) : option 
 
 Definition run_profile (fx : fixes) (p : profile) (os : Z) (fuel : nat) (r : regs) (v : validity) : outcome (list frame) :=
   walk_stack fx p a os mem d_module_at d_max_module_addr cfi_any d_instr_valid fuel r v.
+(* the code as it is now: the walker whose end-of-get_caller_frame checks, stop guard and resolve() flavour are the
+   ones regenerated from the Rust text (Gen/UnwindTail.v); c05_generated_walk_is_model: = run_profile current_code *)
+Definition run_profile_gen (tail : tail_fn) (p : profile) (os : Z) (fuel : nat) (r : regs) (v : validity) : outcome (list frame) :=
+  walk_stack_gen p a tail os mem d_module_at d_max_module_addr cfi_any d_instr_valid fuel r v.
 End Case.
 
 Definition arch_of (id : Z) : arch :=
@@ -263,9 +267,12 @@ Definition trust_code (t : trust) : Z :=
 Definition run_case (fixed : bool) (debug : bool) (archid os : Z) (r : regs) (all_valid : bool) (names : list Z)
            (base : Z) (bytes : list Z) (mods : list modspec) (extra_fuel : Z) : Z * list frame :=
   let mem := {| m_base := base; m_bytes := bytes |} in
-  let fx := if fixed then current_code else code_before_fixes in
-  match run_profile (arch_of archid) mem mods (registers_of archid) (lrname_of archid) fx (if debug then Debug else Release) os
-                    (fuel_for mem + Z.to_nat extra_fuel)%nat r (if all_valid then VAll else VSome names) with
+  let p := if debug then Debug else Release in
+  let fuel := (fuel_for mem + Z.to_nat extra_fuel)%nat in
+  let v := if all_valid then VAll else VSome names in
+  match (if fixed
+         then run_profile_gen (arch_of archid) mem mods (registers_of archid) (lrname_of archid) (tail_of archid) p os fuel r v
+         else run_profile (arch_of archid) mem mods (registers_of archid) (lrname_of archid) code_before_fixes p os fuel r v) with
   | Ret fs => (0, fs)
   | Panic t => (1, [])
   | _ => (2, [])
